@@ -31,7 +31,7 @@ Skip == UNCHANGED <<vars, tid, dq, broken>>
 TTarget == /\ IsEvent("Target")
            /\ Env("fresh", px.phase = "start")
            /\ tgt' = [k |-> Rec.tgt[1], s |-> Rec.tgt[2], r |-> Rec.tgt[3]]
-           /\ UNCHANGED <<px, fromQ, toQ, mf, hb, ap, handled, fixed, out, calls, closed, tid, dq, broken>>
+           /\ UNCHANGED <<px, fromQ, toQ, mf, hb, ap, handled, fixed, out, calls, closed, oth, tid, dq, broken>>
 TReset == /\ IsEvent("Reset")
           /\ UNCHANGED tgt
           /\ px' = [phase |-> "start", icpt |-> FALSE, meta |-> Meta0]
@@ -39,7 +39,7 @@ TReset == /\ IsEvent("Reset")
           /\ hb' = [e \in Events |-> 0] /\ ap' = [e \in Events |-> 0] /\ handled' = {}
           /\ fixed' = [browser |-> FALSE, rinj |-> FALSE, preempted |-> FALSE, recap |-> FALSE]
           /\ out' = [n |-> "init", exc |-> FALSE, res |-> "ok"]
-          /\ calls' = 0 /\ closed' = {} /\ dq' = <<>> /\ tid' = Rec.tid /\ broken' = FALSE
+          /\ calls' = 0 /\ closed' = {} /\ oth' = <<>> /\ dq' = <<>> /\ tid' = Rec.tid /\ broken' = FALSE
 \* {"ev":"InterceptRequest","browser":b,"hdr":b,"q":[event type, E(meta of the queued state)]}
 TIReq == /\ IsEvent("InterceptRequest")
          /\ IF broken THEN Skip ELSE
@@ -63,7 +63,7 @@ THandle == /\ IsEvent("Handle")
               /\ HandleBody(Rec.cfg)
               /\ LET c1 == PutsMatch
                      c2 == Rec.mf = <<mf'.taken, mf'.resumed, E(mf'.meta)>>
-                     c3 == Len(Rec.puts) = 1 \/ (Len(Rec.puts) = 0 /\ Rec.mf[1] /\ ~Rec.mf[2])
+                     c3 == Len(Rec.puts) = 1 \/ (Len(Rec.puts) = 0 /\ Len(Rec.mf) = 3 /\ Rec.mf[1] /\ ~Rec.mf[2])
                  IN /\ Chk("Handle.exactly-once", c3)
                     /\ Chk("Handle.handed-back", c1)
                     /\ Chk("Handle.flow", c2)
